@@ -767,3 +767,23 @@ Proof.
   intros HI Hnn Hz. unfold commit_crash_state. destruct (exec_commits_is_exec (snd (plan f s h)) s k) as [k' E].
   rewrite E. exact (recover_step f s tip h k' HI Hnn Hz).
 Qed.
+
+Lemma exec_until_kind_is_exec ws : forall s k, exists k', exec_until_kind s ws k = exec s ws k'.
+Proof.
+  induction ws as [|w ws IH]; intros s k; [exists 0%nat; reflexivity|]. cbn [exec_until_kind].
+  destruct (costs_commit w && Nat.eqb (write_kind w) k); [exists 0%nat; reflexivity|].
+  destruct (IH (apply_write s w) k) as [k'' E]. exists (S k''). rewrite E. reflexivity.
+Qed.
+
+Theorem stmt_fault_inv f s tip h k : Inv s tip -> s_id h <> 0%N -> exists tip', Inv (stmt_fault_state f s h k) tip'.
+Proof.
+  intros HI Hz. unfold stmt_fault_state. destruct (exec_until_kind_is_exec (snd (plan f s h)) s k) as [k' E].
+  rewrite E. exact (crash_inv f s tip h k' HI Hz).
+Qed.
+
+Theorem stmt_fault_recover_step f s tip h k : Inv s tip -> nonneg_work s -> s_id h <> 0%N ->
+  fst (add f (stmt_fault_state f s h k) h) = fst (add f s h).
+Proof.
+  intros HI Hnn Hz. unfold stmt_fault_state. destruct (exec_until_kind_is_exec (snd (plan f s h)) s k) as [k' E].
+  rewrite E. exact (recover_step f s tip h k' HI Hnn Hz).
+Qed.
